@@ -1,6 +1,7 @@
 """C12 - request admission (DESIGN.md 5/C12)."""
 from . import srvrules as R
 from .sockrules import FLAVOURS
+from . import sockrules as S
 
 from .meta import meta
 META = meta('C12', level='other', extra_tb=None)
@@ -10,3 +11,6 @@ def check(A):
     for fl in FLAVOURS:
         R.admission_rules(A, fl, 'C12', parts=('defs', 'sinks', 'inert'))
         R.upgrade_header_consistency_rule(A, fl, 'C12')
+        S.upgrade_exit_state(A, fl, 'C12')
+    R.config_rules(A, 'C12', which=('transports',))
+    R.middleware_passthrough_rule(A, 'C12')
